@@ -311,6 +311,28 @@ instance (fs : FS) (k : FdKind) : Decidable (WFKind fs k) := by
 
 instance (fs : FS) (d : Fd) : Decidable (WFFd fs d) := by unfold WFFd; infer_instance
 
+/-! ### targets that can no longer be stat'ed (seeded round 5)
+
+  The statement: descriptors that do not point to a regular file "are left out and never make the
+  call fail for a live process". A descriptor whose target name cannot be stat'ed by the monitor for
+  a reason other than permission — a parent directory was replaced by a file (ENOTDIR) or by a
+  symlink loop (ELOOP), the name is too long for the monitor's view (ENAMETOOLONG), the mount went
+  stale or its server died (ESTALE, EIO, ENOTCONN, ETIMEDOUT), … — does not point to a regular file
+  as far as anybody can tell: it is left out, whatever the errno and whatever exception class the
+  runtime picks for it. (`FS.statErr`; the promised list `listed` already says so: `fs.isFile` of
+  such a path is `false`.) -/
+
+/-- the same `os.stat` cannot both fail and succeed -/
+def StatCoherent (fs : FS) : Prop :=
+  ∀ p, (fs.statErr p).isSome = true → fs.isFile p = false ∧ fs.pathExists p = false
+
+/-- `os.stat` of the name the descriptor was opened under fails (with whatever errno) -/
+def targetUnstatable (fs : FS) (d : Fd) : Bool :=
+  match d.kind with
+  | .regular path _ => (fs.statErr path).isSome
+  | .device path => (fs.statErr path).isSome
+  | _ => false
+
 /-! ### /proc/<pid>/io -/
 
 /-- the kernel's per-task I/O accounting (Documentation/filesystems/proc.rst, 3.3) -/
